@@ -68,7 +68,11 @@ impl Rel {
 pub enum Sel {
     /// Absolute slot (0-based); the id used is the *current* id of that slot (live or
     /// removed-not-recycled).  Used by the enumerators and by the shrinker.
-    Slot(u16),
+    Slot(u32),
+    /// like `Slot`, but for a removed-not-recycled slot the node is named by the handle
+    /// `arena.get_node_id(&arena.as_slice()[slot])` (the id carrying the slot's *current* stamp)
+    /// instead of the id it was created with
+    SlotAlt(u32),
     /// k-th live node in slot order.
     Live(u16),
     /// k-th removed-and-not-recycled slot; falls back to `Live` when there is none.
